@@ -197,8 +197,10 @@ def render_star_call(fname, npos, form, kws) -> str:
 def expansions(sig: Sig, used):
     names = sig.names()
     keypool = [*names, "zz"]
-    xs_opts = [tuple(range(100, 100 + n)) for n in range(0, 5)] if "xs" in used else [None]
-    t_opts = [tuple(range(200, 200 + n)) for n in range(0, 5)] if "t" in used else [None]
+    # long enough to fill every positional parameter from one star-argument alone (at least up to length 4)
+    maxlen = max(4, sum(1 for p in sig.params if p.kind in (PO, PK)) + 1)
+    xs_opts = [tuple(range(100, 100 + n)) for n in range(0, maxlen + 1)] if "xs" in used else [None]
+    t_opts = [tuple(range(200, 200 + n)) for n in range(0, maxlen + 1)] if "t" in used else [None]
     if "kw" in used:
         kw_opts = [dict.fromkeys(c, 7) for r in range(0, len(keypool) + 1) for c in itertools.combinations(keypool, r)]
     else:
